@@ -271,6 +271,19 @@ def rule_X1(ctx, info):
     ptr = [e for e in sts if _is_index_term(e.args[2])]
     val = [e for e in sts if not _is_index_term(e.args[2])]
     if len(ptr) != 1 or len(val) != 1:
+        # not the scalar loop.  One clause survives any vectorisation of the split: the candidate for budget i pairs
+        # child[j] with prev[i - j], so a vector of candidates adds a *forward* slice of the one array to a *reversed*
+        # slice of the other; two forward slices pair child[j] with prev[j]
+        params = set(f.params)
+        for n in ast.walk(f.node):
+            if isinstance(n, ast.BinOp) and isinstance(n.op, ast.Add) and all(isinstance(x, ast.Subscript) and isinstance(x.slice, ast.Slice) and isinstance(x.value, ast.Name) and x.value.id in params for x in (n.left, n.right)) and n.left.value.id != n.right.value.id:
+                def forward(sl):
+                    return sl.step is None or (isinstance(sl.step, ast.Constant) and sl.step.value == 1)
+                if forward(n.left.slice) and forward(n.right.slice):
+                    ctx.fail("X1", Q + ": the candidate for budget i adds child[j] and prev[i - j]", f.where(n),
+                             "`%s` adds two forward slices: entry j pairs child[j] with prev[j] (total 2j, not i), so the maximum is taken over splits that do not add up to the budget" % u(n)[:80],
+                             construct=Q, stmt="vectorised split")
+                    return
         raise AnalysisError("C10/X1: expected one value store and one back-pointer store in %s, found %d/%d" % (Q, len(val), len(ptr)))
     ptr, val = ptr[0], val[0]
     R, i_term, v = val.args
